@@ -4,6 +4,7 @@ import (
 	"encoding/json"
 	"os"
 	"strconv"
+	"strings"
 	"testing"
 	"time"
 )
@@ -50,11 +51,16 @@ func TestProbe_C07(t *testing.T) {
 		if o.Overloaded {
 			over++
 		}
+		for _, k := range o.Lenient {
+			fails["(lenient) "+k]++
+		}
 	}
 	total := 0
 	for k, v := range fails {
 		t.Logf("%d x %s", v, k)
-		total += v
+		if !strings.HasPrefix(k, "(lenient) ") {
+			total += v
+		}
 	}
 	t.Logf("PROBE: %d runs, %d violations, %d overloaded", runs, total, over)
 }
